@@ -278,7 +278,10 @@ func (t *c14TiEnv) attrs(tr *c14Tree) (string, bool) {
 
 // ---- documents over the schema's vocabulary ----
 
-type c14TiGen struct{ r *Rng }
+type c14TiGen struct {
+	r     *Rng
+	depth int
+}
 
 func (g *c14TiGen) fname() string {
 	return g.r.Pick([]string{"t", "u", "i", "un", "f", "a", "b", "o", "c", "m", "s", "zz", "__typename", "__schema", "__type", "a", "t", "o"})
@@ -344,9 +347,9 @@ func (g *c14TiGen) selset(d int) string {
 	for i := 0; i < n; i++ {
 		k := g.r.Intn(10)
 		switch {
-		case k < 6 || d >= 3:
+		case k < 6 || d >= g.depth:
 			s := g.fname() + g.args() + g.dirs()
-			if d < 3 && g.r.Chance(55) {
+			if d < g.depth && g.r.Chance(55) {
 				s += " " + g.selset(d+1)
 			}
 			xs = append(xs, s)
@@ -560,7 +563,7 @@ func c14GenTypeInfo(tier string, seed uint64, n int, tb *c14Tables, e *Emitter) 
 	for i := 0; i < n; i++ {
 		idx++
 		r := NewRng(seed, idx)
-		g := &c14TiGen{r: r}
+		g := &c14TiGen{r: r, depth: 1 + r.Intn(3)}
 		if r.Chance(25) {
 			c14StackCase(r, tb, env, g.document(), c14Densities(r), 1+r.Intn(3), e)
 		} else {
